@@ -3,6 +3,8 @@ package props
 import (
 	"bytes"
 	"fmt"
+	"github.com/taurusgroup/multi-party-sig/verif/mut"
+	"strings"
 
 	"github.com/taurusgroup/multi-party-sig/pkg/ecdsa"
 	"github.com/taurusgroup/multi-party-sig/pkg/party"
@@ -223,6 +225,10 @@ func firstSSID(s *scen.Session) []byte {
 
 func runC09(c *fw.Ctx) {
 	if c.S.Draw(6, "c09-mode") == 5 {
+		if c.S.Draw(2, "replay-kind") == 1 {
+			runC09CommitmentReplay(c)
+			return
+		}
 		runC09SenderReplay(c)
 		return
 	}
@@ -461,4 +467,167 @@ func diffStrings(a, b []string) []string {
 		}
 	}
 	return out
+}
+
+// runC09CommitmentReplay: "a commitment made by one party does not verify for another party". One
+// participant (c) mirrors another (a) inside ONE session: in every message of c that carries a
+// commitment, the commitment is replaced by a's; the message in which c has to open it carries a's
+// opening instead (a's values are known in advance here because a is honest and its commit-reveal
+// values do not depend on c - a rushing adversary would wait for them). If an honest party goes on to
+// finish, it has accepted a's opening under c's name: c's "contribution" is a copy that it never
+// committed to.
+func runC09CommitmentReplay(c *fw.Ctx) {
+	sc := scen.DrawScenario(c, scen.ScenarioOpts{CMPPerMille: cmpRate(c, 6), MinN: 3, MaxN: 4, OnlyMulti: true, Kinds: []scen.Kind{scen.KKeygen, scen.KRefresh}})
+	ctl := scen.NewSession(c, "run", sc.Mk(), nil)
+	ctl.Net.Policy = sim.FIFO{}
+	ctl.Net.Run()
+	c.Res.Steps += ctl.Net.Steps
+	parts := sc.Parts
+	cheater := parts[c.S.Draw(len(parts), "mirroring-party")]
+	var others []party.ID
+	for _, id := range parts {
+		if id != cheater {
+			others = append(others, id)
+		}
+	}
+	mirrored := others[c.S.Draw(len(others), "mirrored-party")]
+	isCommit := func(name string) bool { return strings.Contains(strings.ToLower(name), "commit") }
+	isOpening := func(name string) bool { return strings.Contains(strings.ToLower(name), "decommit") }
+	// a's messages by (round, broadcast, recipient)
+	src := map[string]map[interface{}]interface{}{}
+	for _, m := range ctl.Nodes[mirrored].Sent {
+		if t, err := mut.Decode(m.Data); err == nil {
+			if mp, ok := t.(map[interface{}]interface{}); ok {
+				src[fmt.Sprintf("r%d/b%v/%s", m.RoundNumber, m.Broadcast, m.To)] = mp
+			}
+		}
+	}
+	ex := scen.NewSession(c, "run", sc.Mk(), func(id party.ID) bool { return id != cheater })
+	mirroredCommit, mirroredOpening := 0, 0
+	// c's own handler hashes what it would have sent: from the round after its first altered broadcast it
+	// quotes the honest parties' view hash instead (they all hold the same one), waiting for it if need be
+	firstAltered := 0
+	honestBV := map[int][]byte{}
+	type heldT struct {
+		m  *protocol.Message
+		to *sim.Node
+	}
+	held := map[int][]heldT{}
+	ex.Net.PreEmit = func(from *sim.Node, msgs []*protocol.Message) {
+		if from.ID == cheater {
+			return
+		}
+		for _, m := range msgs {
+			r := int(m.RoundNumber)
+			if m.BroadcastVerification != nil && honestBV[r] == nil {
+				honestBV[r] = m.BroadcastVerification
+				for _, h := range held[r] {
+					mm := *h.m
+					mm.BroadcastVerification = honestBV[r]
+					ex.Net.Enqueue(ex.Nodes[cheater], &mm, h.to, "tamper")
+				}
+				delete(held, r)
+			}
+		}
+	}
+	inner := func(from *sim.Node, m *protocol.Message, to *sim.Node) *protocol.Message { return m }
+	ex.Net.Mutate = func(from *sim.Node, m *protocol.Message, to *sim.Node) *protocol.Message {
+		if from.ID != cheater {
+			return m
+		}
+		if m.RoundNumber == 0 {
+			return nil
+		}
+		out := inner(from, m, to)
+		r := int(m.RoundNumber)
+		if out != m && firstAltered == 0 {
+			firstAltered = r
+		}
+		if firstAltered > 0 && r > firstAltered && out.BroadcastVerification != nil {
+			if bv, ok := honestBV[r]; ok {
+				mm := *out
+				mm.BroadcastVerification = bv
+				return &mm
+			}
+			held[r] = append(held[r], heldT{out, to})
+			return nil
+		}
+		return out
+	}
+	inner = func(from *sim.Node, m *protocol.Message, to *sim.Node) *protocol.Message {
+		t, err := mut.Decode(m.Data)
+		mp, ok := t.(map[interface{}]interface{})
+		if err != nil || !ok {
+			return m
+		}
+		key := fmt.Sprintf("r%d/b%v/%s", m.RoundNumber, m.Broadcast, m.To)
+		if m.To == mirrored {
+			return m // a's own message to itself does not exist
+		}
+		a, have := src[key]
+		if !have {
+			return m
+		}
+		opening := false
+		for k := range mp {
+			if ks, isS := k.(string); isS && isOpening(ks) {
+				opening = true
+			}
+		}
+		changed := false
+		out := map[interface{}]interface{}{}
+		for k, v := range mp {
+			out[k] = v
+			ks, isS := k.(string)
+			if !isS {
+				continue
+			}
+			if av, has := a[k]; has && (opening || isCommit(ks)) {
+				out[k] = av
+				changed = true
+			}
+		}
+		if !changed {
+			return m
+		}
+		var data []byte
+		func() {
+			defer func() { _ = recover() }()
+			data = mut.Encode(out)
+		}()
+		if data == nil || bytes.Equal(data, m.Data) {
+			return m
+		}
+		if opening {
+			mirroredOpening++
+		} else {
+			mirroredCommit++
+		}
+		mm := *m
+		mm.Data = data
+		return &mm
+	}
+	ex.Run(c, true)
+	c.Res.Desc = fmt.Sprintf("commitment-replay %s: %q mirrors %q (commitments %d, openings %d) policy=%s", sc.Name, cheater, mirrored, mirroredCommit, mirroredOpening, ex.Net.Policy.Name())
+	c.Res.DistinctID = fmt.Sprintf("commitment-replay/%s/%s", sc.Proto, sc.Kind)
+	if mirroredCommit == 0 || mirroredOpening == 0 {
+		c.Probe("no_commit_reveal_pair_to_mirror", 1)
+		return
+	}
+	c.Res.NonTrivial = true
+	c.Fault("commitment_and_opening_of_a_peer_replayed", 1)
+	if ex.CheckCrash(c, "commitment replay") {
+		return
+	}
+	vals, _ := ex.Results()
+	for _, id := range ex.Order {
+		if id == cheater {
+			continue
+		}
+		if _, fin := vals[id]; fin {
+			c.Violate(fmt.Sprintf("commitment-of-another-party-accepted/%s/%s", sc.Proto, sc.Kind), "honest party %q completed the session although %q had replaced its commitment by %q's and opened it with %q's opening: a commitment made by one party verified for another (%s)", id, cheater, mirrored, mirrored, c.Res.Desc)
+			return
+		}
+	}
+	c.Res.Sample = map[string]interface{}{"desc": c.Res.Desc}
 }
